@@ -1,19 +1,18 @@
-"""Registry of claimed checks: feeds tools/gen_manifest.py. One entry per property that has a check.
-Properties without an entry are listed under not_applicable in MANIFEST.json with the reason in PENDING."""
+"""Registry of claimed checks: feeds tools/gen_manifest.py. One JSON file per claimed property in
+checks/registry.d/ (keys: property_id, category, text, design_ref, note, technique). Properties without a
+file are listed under not_applicable in MANIFEST.json with the reason below (or in registry.d/pending.json)."""
+import glob
+import json
+import os
 
-CLAIMED = {
-    "C42": {
-        "category": "proof",
-        "text": "Lean theorems for every N: (2N+2)/3 is ceil(2N/3); any two quorums meeting N-f or ceil(2N/3) (or one of each) "
-                "inside a validator set of N share more than f members (Finset cardinality); every threshold expression "
-                "extracted from the Go source equals its formula for all N. The generated definitions are regenerated from "
-                "/repo on every run, so editing a formula in Go breaks a theorem and the search reports the least N.",
-        "design_ref": "DESIGN.md §6 C42",
-        "note": "Trusted: Lean kernel (+propext, Classical.choice, Quot.sound), the go/parser translator extract/thresholds "
-                "(validated each run against the verbatim Go expressions on N=0..10000), absence of int overflow for validator counts.",
-        "technique": "Lean 4 proof over translator-regenerated definitions + verbatim-Go sweep",
-    },
-}
+_D = os.path.join(os.path.dirname(os.path.abspath(__file__)), "registry.d")
+CLAIMED = {}
+for _p in sorted(glob.glob(os.path.join(_D, "C*.json"))):
+    _c = json.load(open(_p))
+    CLAIMED[_c["property_id"]] = _c
 
-PENDING_REASON = "check not built yet in this round (planned in DESIGN.md §6); not claimed"
+PENDING_REASON = "check not built yet (planned in DESIGN.md section 6); not claimed"
 PENDING = {}
+_pp = os.path.join(_D, "pending.json")
+if os.path.exists(_pp):
+    PENDING = json.load(open(_pp))
